@@ -310,7 +310,10 @@ class Run:
         return True
 
     # -- tie side -------------------------------------------------------------
-    def run_vh(self, extra=None, timeout=3000):
+    def run_vh(self, extra=None, timeout=None):
+        if timeout is None:
+            # (a hang must not cost an hour: the slowest quick run takes 40 s, the slowest thorough run 9 minutes)
+            timeout = 5400 if self.tier == "thorough" else 900
         ok, out = build_vh()
         if not ok:
             raise RuntimeError("harness does not build against /repo:\n" + out[-3000:])
